@@ -47,9 +47,14 @@ def run_case(case, opts):
         p = pylib.write_tmp(text, ".out", newline="")
     try:
         if case["kind"] == "ff":
-            status, seq = FF_PARSER.get_solving_status(p)
             outp = str(p) + ".plan"
-            FF_PARSER.parse_plan(p, outp)
+            if case["id"] % 3 == 0:
+                # the plan file is written first: the parser object's last status query was about the previous log
+                FF_PARSER.parse_plan(p, outp)
+                status, seq = FF_PARSER.get_solving_status(p)
+            else:
+                status, seq = FF_PARSER.get_solving_status(p)
+                FF_PARSER.parse_plan(p, outp)
             file_plan = actions(open(outp).read().split("\n")) if os.path.exists(outp) else []
             if os.path.exists(outp):
                 os.unlink(outp)
